@@ -554,10 +554,23 @@ def cancel_oracle(obs, x, how, not_started=False, targeted=True):
     elif x.outcome == 'success':
         if not_started:
             out.append(V(f'{x.label}: had not started when it was cancelled, yet reported success', **mech, sym='not-started-success'))
-        for v in content_oracle(obs, x):
-            v['mech']['entry'] = how
-            v['mech']['sym'] = 'success-incomplete-after-cancel'
-            out.append(v)
+        # success is only legitimate if the cancel raced the FINAL step.  The final task decides whether to run right after it
+        # starts (or, for CompleteMultipartUpload, later still), so if it was not even started by the request stage when the cancel
+        # call returned it must have seen the cancellation: the transfer was "not yet finished" and must report it.
+        final_task = None
+        if x.kind == 'upload':
+            final_task = 'CompleteMultipartUploadTask' if mech['mode'] == 'multipart' else 'PutObjectTask'
+        elif x.kind == 'copy':
+            final_task = 'CompleteMultipartUploadTask' if mech['mode'] == 'multipart' else 'CopyObjectTask'
+        elif x.kind == 'delete':
+            final_task = 'DeleteObjectTask'
+        ce = [e for e in obs.events if e['kind'] == 'cancel.end']
+        single = len([y for y in obs.xfers if y.kind == x.kind]) == 1
+        if final_task and ce and targeted and single:
+            fs = [e['n'] for e in obs.events if e['kind'] == 'exec.start' and e.get('task') == final_task]
+            if fs and min(fs) > ce[0]['n']:
+                out.append(V(f'{x.label}: the cancel call ({how}) had returned before the final task {final_task} was even started, yet the '
+                             f'transfer ran on and reported success', **mech, sym='cancel-ineffective'))
     if not_started:
         s3 = [e for e in obs.events if e['kind'] == 'api.begin' and e.get('label') == x.label]
         if s3:
